@@ -20,22 +20,28 @@ var harnessAPI map[string]harnessFn
 
 func init() {
 	harnessAPI = map[string]harnessFn{
-		"vString":   hString,
-		"vInt":      hInt,
-		"vBool":     hBool,
-		"vFloat":    hFloat,
-		"vAssume":   hAssume,
-		"vAssert":   hAssert,
-		"vReach":    hReach,
-		"vObserve":  hObserve,
-		"vPhase":    hPhase,
-		"vSetenv":   hSetenv,
-		"vMapOrder": hMapOrder,
-		"vNote":     func(m *machine, fr *frame, args []value) value { return nil },
-		"vSymbolic": func(m *machine, fr *frame, args []value) value { return true },
-		"vYield":    hYield,
-		"vThorough": func(m *machine, fr *frame, args []value) value { return m.w.thorough },
-		"vWriter":   hWriter,
+		"vString":     hString,
+		"vInt":        hInt,
+		"vBool":       hBool,
+		"vFloat":      hFloat,
+		"vAssume":     hAssume,
+		"vAssert":     hAssert,
+		"vReach":      hReach,
+		"vObserve":    hObserve,
+		"vPhase":      hPhase,
+		"vSetenv":     hSetenv,
+		"vMapOrder":   hMapOrder,
+		"vNote":       func(m *machine, fr *frame, args []value) value { return nil },
+		"vSymbolic":   func(m *machine, fr *frame, args []value) value { return true },
+		"vYield":      hYield,
+		"vThorough":   func(m *machine, fr *frame, args []value) value { return m.w.thorough },
+		"vWriter":     hWriter,
+		"vNewContext": hNewContext,
+		"vOnIdle": func(m *machine, fr *frame, args []value) value {
+			m.onIdle = args[0]
+			return nil
+		},
+		"vCancel":     hCancel,
 		"vClearWritten": func(m *machine, fr *frame, args []value) value {
 			delete(m.writers, "w:"+concreteStr(args[0], "vClearWritten name"))
 			return nil
